@@ -2,6 +2,7 @@ import Olla.Driver.Retry
 import Olla.Driver.C04
 import Olla.Model.Counters
 import Olla.Spec.C19
+import Olla.Gen.Retry
 
 namespace Olla.Driver.C19
 open Lean Olla.Driver Olla.Driver.Retry Olla.Model.Retry Olla.Model.Counters Olla.Spec.C19
@@ -208,12 +209,24 @@ def handle (vs : Variants) (j : Json) : IO Unit := do
   let chosen : List (List Ev) := perReq.map (fun rs => (rs.head?.map (·.1)).getD [])
   let shared := chosen.flatten   -- sequential execution is one interleaving; by `C19_gauge_zero_at_quiescence` all give the same
   let mGaugesFinal := eps.map (fun e => gauge e.idx shared 0)
-  let mMid := eps.map (fun e => gauge e.idx (chosen.flatMap (heldPrefix eps)) 0)
+  -- mid-flight gauges through the collector model with its clean-up pass: warm-up traffic at time 0 (only
+  -- in `idle_min` scenarios), the held attempts after the silence, then the pass if its interval has elapsed
+  let minute : Int := 60000000000
+  let idleNs : Int := jint (jget sc "idle_min") * minute
+  let upNs : Int := jint (jget sc "uptime_min") * minute
+  let warm := jget impl "warm"
+  let warmEvs : List CEv := eps.flatMap (fun e =>
+    if jint (jget warm e.name) > 0 then [CEv.ev (.inc e.idx) 0, CEv.ev (.recSuccess e.idx) 0, CEv.ev (.dec e.idx) 0] else [])
+  let heldEvs : List CEv := (chosen.flatMap (heldPrefix eps)).map (fun x => CEv.ev x idleNs)
+  let passes : List CEv := if upNs > 0 && idleNs + upNs ≥ Olla.Gen.Retry.collectorCleanupInterval then [CEv.sweep idleNs] else []
+  let cst := runC activeCleanup Olla.Gen.Retry.collectorEndpointTTL CState.empty (warmEvs ++ heldEvs ++ passes)
+  let mMid := eps.map (fun e => reported cst e.idx)
   let iMid := if jisNull mid then mMid else eps.map (fun e => jint (jget (jget (jget mid "c") "conns") e.name))
   let agree := explained && summed && mGaugesFinal == gaugesFinal && mMid == iMid
   let kinds := String.intercalate "," (eps.map (fun e => if e.opened then "open" else e.kind ++ (if e.resp.status ≥ 400 then toString e.resp.status else "")))
   let multi := chosen.any (fun t => attempts t > 1)
   let branch := s!"{family}.{route}.{balancer}" ++ (if multi then ".failover" else "") ++ (if clients > 1 then ".concurrent" else "")
+    ++ (if idleNs > 0 then (if idleNs > Olla.Gen.Retry.collectorEndpointTTL then ".idle-past-ttl" else ".idle") else "")
   emit case agree spec branch sig
     (if agree && spec then "" else
       s!"{jstr (jget sc "engine")}/{balancer}/{route} kinds {kinds} clients {clients}{if gated then " gated" else ""}: gauges at quiescence {gaugesFinal}" ++
